@@ -1,4 +1,6 @@
 import IceModel.Driver.Parse
+import IceModel.Model.Iter1Hit
+import IceModel.Model.Bits
 /-
   The case interpreter: builds abstract segments from `build` / `merge` / `load` blocks and
   answers `q` lines.  One answer line per query: `r <case> <qidx> <answer>`.
@@ -27,6 +29,7 @@ structure St where
   norm : NormP := ⟨1, 0, 0⟩
   segs : Array AbsSeg := #[]
   docnums : Array (Option (List (List (Option Nat)))) := #[]
+  merged : Array Bool := #[]
   mode : Nat := 1025
   docs : Array Doc := #[]
   mergeIns : Array (Nat × List Nat) := #[]
@@ -47,7 +50,7 @@ structure Answerer where
   count : AbsSeg → Nat
   dict : AbsSeg → Bytes → Option Bytes → Option Bytes → (Bytes → Bool) → List (Bytes × Nat)
   contains : AbsSeg → Bytes → Bytes → Bool
-  iter : AbsSeg → Bytes → Bytes → Option (List Nat) → Option (List Nat) → Flags → List XOp →
+  iter : Bool → AbsSeg → Bytes → Bytes → Option (List Nat) → Option (List Nat) → Flags → List XOp →
     List (Option Posting) × Nat
   stored : AbsSeg → Nat → List (Bytes × Bytes)
   dv : AbsSeg → List Bytes → List Nat → List (List (Bytes × Bytes))
@@ -67,7 +70,7 @@ def specAnswerer : Answerer where
   count s := numDocs s
   dict := dictEntries
   contains s f t := !(postings s f t).isEmpty
-  iter s f t e r fl ops :=
+  iter _ s f t e r fl ops :=
     let P := postings s f t
     let P := match r with
       | none => P
@@ -78,6 +81,68 @@ def specAnswerer : Answerer where
   dv s fs ds := ds.map (fun d => fs.flatMap (fun f => (dvOf s d f).map (fun t => (f, t))))
   stats := Spec.stats
   docsMatching := Spec.docsMatching
+
+/-! ### answering through the executable MODEL of the code (correspondence model ↔ implementation) -/
+
+/-- run a script on the entry-level model of the general-encoding iterator -/
+def modelIterX (fl : Flags) (fuel : Nat) : Model.Iter.It → List XOp → List (Option Posting)
+  | _, [] => []
+  | i, .op o :: ops =>
+    match Model.Iter.step i o with
+    | none => [some { doc := 999999999, freq := 0, norm := 0, locs := [] }]     -- fault marker
+    | some (r, i') => (r.map (view fl)) :: modelIterX fl fuel i' ops
+  | i, .walk :: ops =>
+    let rec go : Nat → Model.Iter.It → List (Option Posting) × Model.Iter.It
+      | 0, i => ([], i)
+      | n + 1, i =>
+        match Model.Iter.step i .next with
+        | none => ([some { doc := 999999999, freq := 0, norm := 0, locs := [] }], i)
+        | some (none, i') => ([none], i')
+        | some (some p, i') => let (rs, i'') := go n i'; (some (view fl p) :: rs, i'')
+    let (rs, i') := go fuel i
+    rs ++ modelIterX fl fuel i' ops
+
+def modelIter1X (fl : Flags) : Model.Iter1Hit.It → List XOp → List (Option Posting)
+  | _, [] => []
+  | i, .op o :: ops =>
+    let (r, i') := Model.Iter1Hit.step i o
+    (r.map (view fl)) :: modelIter1X fl i' ops
+  | i, .walk :: ops =>
+    let (r, i') := Model.Iter1Hit.step i .next
+    match r with
+    | none => none :: modelIter1X fl i' ops
+    | some p => some (view fl p) :: none :: modelIter1X fl i' ops
+
+/-- the model's iterator over the postings the specification assigns to (f, t): the chunk size is
+    the one the code derives from (chunk mode, cardinality, document count); a merged segment
+    encodes a term with one posting of frequency 1 without locations as a 1-hit value -/
+def modelAnswerer : Answerer :=
+  { specAnswerer with
+    iter := fun merged s f t e r fl ops =>
+      let P := postings s f t
+      let L := live (match r with
+                     | none => P
+                     | some keep => P.filter (fun p => keep.contains p.doc)) e
+      let rfl := Model.Iter.RFlags.of fl
+      let oneHit := merged && (match P with
+        | [p] => p.freq == 1 && p.locs.isEmpty && p.doc < 2 ^ 31
+        | _ => false)
+      if oneHit then
+        match P with
+        | [p] => (modelIter1X fl (Model.Iter1Hit.mk p.doc p.norm e rfl) ops, L.length)
+        | _ => ([], 0)
+      else
+        match Model.getChunkSize s.chunkMode P.length (numDocs s) with
+        | .ok cs =>
+          let i0 := Model.Iter.mk cs P e rfl
+          -- ReplaceActual: the actual cursor is replaced by the given subset, the iterator
+          -- leaves the clean path
+          let i0 := match r with
+            | none => i0
+            | some keep => { i0 with act := (P.filter (fun p => keep.contains p.doc)).map (·.doc), clean := false }
+          if P.isEmpty then (specIterX fl [] ops, 0)
+          else (modelIterX fl (P.length + 1) i0 ops, L.length)
+        | _ => ([], 0) }
 
 def takeStop (stop : Int) (l : List (Bytes × Bytes)) : List (Bytes × Bytes) :=
   if stop < 0 then l else l.take stop.toNat
@@ -120,13 +185,13 @@ def answer (A : Answerer) (st : St) (toks : List String) : Option String := do
   | "iter" :: s :: f :: t :: e :: fl :: ops =>
     let sg ← st.segs[(← s.toNat?)]?
     let fl ← parseFlags fl
-    let (rs, cnt) := A.iter sg (← parseBytes f) (← parseBytes t) (← parseOptNatList e) none fl
+    let (rs, cnt) := A.iter (st.merged.getD (← s.toNat?) false) sg (← parseBytes f) (← parseBytes t) (← parseOptNatList e) none fl
       (← ops.mapM parseXOp)
     pure (" ".intercalate (rs.map (showPosting fl) ++ [s!"cnt={cnt}", s!"icnt={cnt}"]))
   | "iterR" :: s :: f :: t :: e :: r :: fl :: ops =>
     let sg ← st.segs[(← s.toNat?)]?
     let fl ← parseFlags fl
-    let (rs, _) := A.iter sg (← parseBytes f) (← parseBytes t) (← parseOptNatList e)
+    let (rs, _) := A.iter (st.merged.getD (← s.toNat?) false) sg (← parseBytes f) (← parseBytes t) (← parseOptNatList e)
       (some (← parseNatList r)) fl (← ops.mapM parseXOp)
     pure (" ".intercalate (rs.map (showPosting fl)))
   | ["stored", s, n, stop] =>
@@ -203,7 +268,8 @@ def step (A : Answerer) (st : St) (line : String) : St × Option String :=
     | _, _, _, _ => (st, some s!"bad-line {line}")
   | ["endbuild"] =>
     let sg := build st.norm.calc st.mode st.docs.toList
-    ({ st with segs := st.segs.push sg, docnums := st.docnums.push none, docs := #[] }, none)
+    ({ st with segs := st.segs.push sg, docnums := st.docnums.push none, merged := st.merged.push false,
+               docs := #[] }, none)
   | "merge" :: m :: _ =>
     match m.toNat? with
     | some m => ({ st with mode := m, mergeIns := #[] }, none)
@@ -215,11 +281,13 @@ def step (A : Answerer) (st : St) (line : String) : St × Option String :=
   | ["endmerge"] =>
     let ins := st.mergeIns.toList.map (fun p => (st.segs.getD p.1 default, p.2))
     let (sg, dn) := merge st.mode ins
-    ({ st with segs := st.segs.push sg, docnums := st.docnums.push (some dn), mergeIns := #[] }, none)
+    ({ st with segs := st.segs.push sg, docnums := st.docnums.push (some dn), merged := st.merged.push true,
+               mergeIns := #[] }, none)
   | "load" :: s :: _ =>
     match s.toNat? with
     | some s =>
-      ({ st with segs := st.segs.push (st.segs.getD s default), docnums := st.docnums.push none }, none)
+      ({ st with segs := st.segs.push (st.segs.getD s default), docnums := st.docnums.push none,
+                 merged := st.merged.push (st.merged.getD s false) }, none)
     | none => (st, some s!"bad-line {line}")
   | "q" :: q =>
     let out := match answer A st q with
